@@ -98,6 +98,13 @@ Definition complete_edges_from_faces (r : raw) : raw :=
   mkRaw (vertices r) (edges r ++ added) at2 (faces r) (fc_elem r) (fc_adj r)
         (cells r) (cc_elem r) (cc_adj r) (cf_elem r) (cf_adj r).
 
+(* ---------------------------------------------------------------- vertices: float array, 2-D points padded (the width test
+   and the padding values are generated), Vec.  Coordinates themselves are unchanged. *)
+Definition prep_vertex (v : list Z) : list Z := if pv_pad_needed (zlen v) then v ++ pv_pad_values else v.
+Definition prepare_vertices (r : raw) : raw :=
+  mkRaw (map prep_vertex (vertices r)) (edges r) (eattrs r) (faces r) (fc_elem r) (fc_adj r)
+        (cells r) (cc_elem r) (cc_adj r) (cf_elem r) (cf_adj r).
+
 (* ---------------------------------------------------------------- edges *)
 Definition evalid (N : Z) (e : edge) : bool := edge_valid (fst e) (snd e) N.
 
@@ -202,9 +209,9 @@ Definition run_step (s : step) (r : raw) : res raw :=
   match s with
   | SCompleteFaces => Ok (complete_faces_from_cells r)
   | SCompleteEdges => Ok (complete_edges_from_faces r)
-  | SVertices => Ok r          (* Vec cast: coordinates unchanged *)
+  | SVertices => Ok (prepare_vertices r)
   | SEdges => Ok (prepare_edges r)
-  | SFaces => Ok r
+  | SFaces => Ok r             (* rows become tuples of Python ints: values unchanged *)
   | SFaceCorners => Ok (generate_face_corners r)
   | SCells => Ok r
   | SCellCorners => Ok (generate_cell_corners r)
